@@ -17,3 +17,17 @@ def encode(reg, args, result, after=None):
 
 def trim_reply(reply):
     return reply
+
+
+def fuzz(rng):
+    from .. import gen
+    p = gen.rand_profile(rng)
+    th = gen.rand_th(rng, p)
+    zroot = float(rng.random() * p.dzsum[-1] * 1.05)
+    if rng.random() < 0.3:
+        zroot = float(rng.choice(p.dzsum))
+    ztop = float(max(rng.choice([0.1, 0.05, 0.2, 0.3, 0.15]), p.dz[0]))
+    return (p, zroot, th, ztop, float(rng.choice([0.3, 0.2, 0.1])), float(rng.choice([5, 15, 2])))
+
+
+from aquacrop.solution.root_zone_water import root_zone_water as FUNC  # noqa: E402
